@@ -1,13 +1,14 @@
 #!/usr/bin/env python3
 """Writes /verif/.build/overlay.json (and overlay_emu.json for the emulator build) from /repo's current tree."""
 import json, os, re, sys
-B = "/verif/.build"; V = "/verif/mc/overlay"
+VD = os.environ.get("VERIF_DIR", "/verif"); R = os.environ.get("VERIF_REPO", "/repo")
+B = os.environ.get("VERIF_BUILD", VD + "/.build"); V = VD + "/mc/overlay"
 os.makedirs(B + "/ovl", exist_ok=True)
-base = {"/repo/src/free5gclib/nas/security/snow3g/zz_verif_export.go": V + "/snow3g/export.go"}
+base = {R + "/src/free5gclib/nas/security/snow3g/zz_verif_export.go": V + "/snow3g/export.go"}
 json.dump({"Replace": base}, open(B + "/overlay.json", "w"))
 # emulator: "time" -> vtime in stg-utg.go and src/stgutg/*.go
-emu = {"/repo/src/tglib/vtime/vtime.go": V + "/vtime/vtime.go"}
-files = ["/repo/stg-utg.go"] + ["/repo/src/stgutg/" + f for f in sorted(os.listdir("/repo/src/stgutg")) if f.endswith(".go") and not f.endswith("_test.go")]
+emu = {R + "/src/tglib/vtime/vtime.go": V + "/vtime/vtime.go"}
+files = [R + "/stg-utg.go"] + [R + "/src/stgutg/" + f for f in sorted(os.listdir(R + "/src/stgutg")) if f.endswith(".go") and not f.endswith("_test.go")]
 n = 0
 for f in files:
     s = open(f).read()
